@@ -129,10 +129,7 @@ func c18NLRI(r *rand.Rand, f Family, c *c18NLRICtx) NLRI {
 
 func c18EVPN(r *rand.Rand, c *c18NLRICtx) NLRI {
 	rd := c18RD(r)
-	k := r.IntN(5)
-	if c.quirk == "evpn-ipmsi" && c18Chance(r, 3) {
-		k = 5
-	}
+	k := r.IntN(6) // (C18) the I-PMSI route (type 9) is a regular route type of the API converters
 	switch k {
 	case 0:
 		c.tag("evpn-ad")
@@ -168,7 +165,6 @@ func c18EVPN(r *rand.Rand, c *c18NLRICtx) NLRI {
 		return n
 	default:
 		c.tag("evpn-ipmsi")
-		c.tag("quirk:evpn-ipmsi")
 		return NewEVPNIPMSIRoute(rd, c18U32(r), c18RouteTarget(r))
 	}
 }
